@@ -197,21 +197,6 @@ func condSumLoop(p *Prog, fn *ssa.Function) (acc *ssa.Phi, over, guard, elem str
 		if !isLoopHeader(header) {
 			continue
 		}
-		var idx, a *ssa.Phi
-		for _, ins := range header.Instrs {
-			ph, isPhi := ins.(*ssa.Phi)
-			if !isPhi {
-				break
-			}
-			if phiStartsAt(ph, -1) {
-				idx = ph
-			} else if phiStartsAt(ph, 0) {
-				a = ph
-			}
-		}
-		if idx == nil || a == nil {
-			continue
-		}
 		iff, isIf := header.Instrs[len(header.Instrs)-1].(*ssa.If)
 		if !isIf {
 			continue
@@ -221,7 +206,29 @@ func condSumLoop(p *Prog, fn *ssa.Function) (acc *ssa.Phi, over, guard, elem str
 			continue
 		}
 		ln, isCall := bo.Y.(*ssa.Call)
-		if !isCall {
+		if !isCall || !isLenCall(ln) {
+			continue
+		}
+		// the index: a range loop's hidden counter (starts at -1, tested as idx+1 < len) or a
+		// written-out  for i := 0; i < len(X); i++
+		var idx, a *ssa.Phi
+		if inc, ok := bo.X.(*ssa.BinOp); ok && inc.Op == token.ADD {
+			if ph, ok := inc.X.(*ssa.Phi); ok && ph.Block() == header && phiStartsAt(ph, -1) {
+				idx = ph
+			}
+		} else if ph, ok := bo.X.(*ssa.Phi); ok && ph.Block() == header && phiStartsAt(ph, 0) && phiStepsByOne(ph, header) {
+			idx = ph
+		}
+		for _, ins := range header.Instrs {
+			ph, isPhi := ins.(*ssa.Phi)
+			if !isPhi {
+				break
+			}
+			if ph != idx && phiStartsAt(ph, 0) && isIntType(ph.Type()) {
+				a = ph
+			}
+		}
+		if idx == nil || a == nil {
 			continue
 		}
 		over = w.term(ln.Call.Args[0])
